@@ -67,6 +67,10 @@ var c12Actors = []c12Actor{
 			tk.Fire()
 		}
 	}},
+	// the backend answers before the upload is through: the transport's goroutine is still
+	// reading the request body when the exchange ends (and after)
+	{"req-upload-answered-early", func(k *kit) { k.requestAnsweredEarly("10.0.0.5", "ok") }},
+	{"req-upload-answered-early-500", func(k *kit) { k.requestAnsweredEarly("10.0.0.6", "500") }},
 }
 
 type c12Params struct {
